@@ -17,7 +17,8 @@
     ringorder <n> {<bidx>}*            -> ok | bad    adopt the observed order of the reject ring (must be a permutation)
     setorder <n> {<bidx>}*             -> ok | bad    adopt the observed sorted list (must be a parents-first permutation)
     rbf <npk> {<fee> <weight> <k> {<bidx>}*}*  -> <bidx>* | bad-pkg <i>   GetSortedMempoolRBF's listing for the observed FeePackages
-    dump                               -> P … | S … | R … | W … | X … | L … | T … | E …
+    dump                               -> P … | S … | R … | W … | X … | L … | T … | E … | G … | K …
+                                          (K = `dirty` or the sorted list as <bidx>:<SortRank>; G = the ghost flag rankWrap)
 -/
 import GocoinV.Model.Mempool
 import GocoinV.Base.Proto
@@ -63,7 +64,8 @@ def dump (s : State) : String :=
   let w := (sortKV s.waiting).map fun (k, (_, ids)) => s!"{hex16 k}={",".intercalate (ids.map hex16)}"
   let x := (sortKV s.rejSpent).map fun (k, ids) => s!"{hex16 k}={",".intercalate (ids.map hex16)}"
   let l := if s.sortDirty then "dirty" else " ".intercalate (s.sorted.map hex16)
-  s!"P {" ".intercalate p} | S {" ".intercalate sp} | R {" ".intercalate r} | W {" ".intercalate w} | X {" ".intercalate x} | L {l} | T {s.weightTotal} {s.rej.length} | E {b01 s.panicked}"
+  let k := if s.sortDirty then "dirty" else " ".intercalate (s.sorted.map fun b => s!"{hex16 b}:{rankOf s b}")
+  s!"P {" ".intercalate p} | S {" ".intercalate sp} | R {" ".intercalate r} | W {" ".intercalate w} | X {" ".intercalate x} | L {l} | T {s.weightTotal} {s.rej.length} | E {b01 s.panicked} | G {b01 s.rankWrap} | K {k}"
 
 /-- parse n ids/keys from the token list -/
 def takeN {α : Type} (f : String → Option α) : Nat → List String → Option (List α × List String)
@@ -183,7 +185,7 @@ def step (o : OSt) (toks : List String) : OSt × String :=
   | "setorder" :: n :: rest =>
     match n.toNat?.bind (fun n => takeN parseKey n rest) with
     | some (ks, []) =>
-      if !s.sortDirty && isPerm (s.pool.map (·.1)) ks && parentsFirst s ks then ({ o with s := { s with sorted := ks } }, "ok")
+      if !s.sortDirty && isPerm (s.pool.map (·.1)) ks && parentsFirst s ks then ({ o with s := { s with sorted := ks, ranks := rankFrom s.sortStep SORT_START ks } }, "ok")
       else (o, "bad")
     | _ => bad
   | "rbf" :: n :: rest =>
